@@ -152,10 +152,12 @@ def actions_for(ndt, ndom, max_vars):
 
     def actions(p):
         acts = []
+        full = getattr(actions, "depth", 0) < getattr(actions, "full_depth", 10 ** 9)
         for nm in NAMES:
             for d in range(1, ndt + 1):
                 for dom in range(1, ndom + 1):
-                    if len(p["reg"]) + len(doms[dom - 1]) <= max_vars:
+                    # beyond full_depth only removals are offered (histories ending in a removal at low cost)
+                    if full and len(p["reg"]) + len(doms[dom - 1]) <= max_vars:
                         acts.append(dict(ev="create", name=nm, d=d, dom=dom))
             if any(r["name"] == nm for r in p["reg"]):
                 acts.append(dict(ev="remove", name=nm))
@@ -183,14 +185,18 @@ def run(ctx):
                     invariants=["ImplIsRef", "TypeOK"], constraint="Lim", extra_defs=f'Lim == TLCGet("level") <= {L + 1}')
     ctx.tlc(m, cf, workers=8, allow_violation=False)
     # real histories
-    g = ex.explore_paths(Sys, actions=actions_for(ndt, ndom, max_vars), apply=apply, project=project, max_depth=L,
-                         max_nodes=4000 if ctx.quick else 30000)
+    acts = actions_for(ndt, ndom, max_vars)
+    acts.full_depth = L          # all calls up to length L, then one more level of removals only
+    g = ex.explore_paths(Sys, actions=acts, apply=apply, project=project, max_depth=L + 1,
+                         max_nodes=6000 if ctx.quick else 40000)
     ctx.traces += ex.n_edges(g)
     # observe every distinct state through the public API (re-execute its shortest history)
     cases, paths = [], []
     ids = list(range(1, len(g["nodes"]) + 1))
     if ctx.quick and len(ids) > 260:   # quick tier: the 60 shallowest states + a seeded sample of the rest
-        ids = ids[:60] + sorted(ctx.rng.sample(ids[60:], 200))
+        n_l = sum(1 for n in ids if len(ex.path_to(g, n)) <= L)     # states of the full-alphabet levels come first (BFS)
+        tail = ids[n_l:]
+        ids = ids[:60] + sorted(ctx.rng.sample(ids[60:n_l], min(150, max(0, n_l - 60)))) + sorted(ctx.rng.sample(tail, min(70, len(tail))))
         ctx.extra["states_observed"] = f"{len(ids)} of {len(g['nodes'])} (seeded sample)"
     for n in ids:
         path = ex.path_to(g, n)
